@@ -72,8 +72,8 @@ const (
 	selNumber
 	selString
 	selBool
-	selColl   // list, set, map
-	selSeq    // list, tuple, set
+	selColl // list, set, map
+	selSeq  // list, tuple, set
 	selList
 	selMap
 	selObject
@@ -97,7 +97,7 @@ func defOp(name string, fault string, fn func(t *taskState, a [3]cty.Value, p [3
 	opTable = append(opTable, d)
 }
 
-func v1(v cty.Value) opRes             { return opRes{vals: []cty.Value{v}} }
+func v1(v cty.Value) opRes                  { return opRes{vals: []cty.Value{v}} }
 func sres(f string, a ...interface{}) opRes { return opRes{s: fmt.Sprintf(f, a...)} }
 
 func valErr(v cty.Value, err error) opRes {
@@ -163,11 +163,19 @@ func init() {
 	defOp("Or", "", func(t *taskState, a [3]cty.Value, p [3]int) opRes { return v1(a[0].Or(a[1])) }, selBool, selBool)
 	defOp("Length", "", func(t *taskState, a [3]cty.Value, p [3]int) opRes { return v1(a[0].Length()) }, selSeq)
 	defOp("LengthInt", "", func(t *taskState, a [3]cty.Value, p [3]int) opRes { return sres("%d", a[0].LengthInt()) }, selSeq)
-	defOp("IndexInt", "", func(t *taskState, a [3]cty.Value, p [3]int) opRes { return v1(a[0].Index(cty.NumberIntVal(int64(p[0] % 3)))) }, selList)
-	defOp("IndexKey", "", func(t *taskState, a [3]cty.Value, p [3]int) opRes { return v1(a[0].Index(cty.StringVal(keyPool[p[0]%len(keyPool)].raw))) }, selMap)
+	defOp("IndexInt", "", func(t *taskState, a [3]cty.Value, p [3]int) opRes {
+		return v1(a[0].Index(cty.NumberIntVal(int64(p[0] % 3))))
+	}, selList)
+	defOp("IndexKey", "", func(t *taskState, a [3]cty.Value, p [3]int) opRes {
+		return v1(a[0].Index(cty.StringVal(keyPool[p[0]%len(keyPool)].raw)))
+	}, selMap)
 	defOp("IndexVal", "", func(t *taskState, a [3]cty.Value, p [3]int) opRes { return v1(a[0].Index(a[1])) }, selSeq, selNumber)
-	defOp("HasIndex", "", func(t *taskState, a [3]cty.Value, p [3]int) opRes { return v1(a[0].HasIndex(cty.NumberIntVal(int64(p[0] % 4)))) }, selSeq)
-	defOp("HasIndexKey", "", func(t *taskState, a [3]cty.Value, p [3]int) opRes { return v1(a[0].HasIndex(cty.StringVal(keyPool[p[0]%len(keyPool)].raw))) }, selMap)
+	defOp("HasIndex", "", func(t *taskState, a [3]cty.Value, p [3]int) opRes {
+		return v1(a[0].HasIndex(cty.NumberIntVal(int64(p[0] % 4))))
+	}, selSeq)
+	defOp("HasIndexKey", "", func(t *taskState, a [3]cty.Value, p [3]int) opRes {
+		return v1(a[0].HasIndex(cty.StringVal(keyPool[p[0]%len(keyPool)].raw)))
+	}, selMap)
 	defOp("HasElement", "", func(t *taskState, a [3]cty.Value, p [3]int) opRes { return v1(a[0].HasElement(a[1])) }, selSet, selAny)
 	defOp("GetAttr", "", func(t *taskState, a [3]cty.Value, p [3]int) opRes {
 		names := sortedAttrNames(a[0].Type())
